@@ -955,6 +955,8 @@ class Exec:
                     if op == 'trunc': xv = (simp(z3.Extract(rt.n - 1, 0, xv)) if is_sym(xv) else mask(xv, rt.n))
                     elif is_sym(xv): xv = simp(z3.ZeroExt(rt.n - rf.n, xv))
                     env[d] = pu_norm(xv, xu, rt.n)
+                elif isinstance(x, PU) and op in ('inttoptr', 'ptrtoint', 'bitcast') and isinstance(rf, (IntT, PtrT)) and isinstance(rt, (IntT, PtrT)) and \
+                        (64 if isinstance(rf, PtrT) else rf.n) == (64 if isinstance(rt, PtrT) else rt.n): env[d] = x
                 else: env[d] = None
             elif op == 'zext':
                 if isinstance(x, Ptr): x = s.p2i(x)
